@@ -10,6 +10,7 @@
                 precedes in its part — so no truncated input is ever taken for a complete one
      readers    stream and slice readers are the same functions *)
 From PNA Require Import Base Crc32 Codec Chunk Archive Entry BaseFacts ChunkFacts ArchiveFacts EntryFacts OffsetFacts PartsFacts.
+From PNA Require ArchiveRun.
 Open Scope N_scope.
 
 Theorem C06_truncated_chunk_is_eof :
@@ -84,6 +85,16 @@ Check C06_truncation_multipart :
   if is_nil pre && Nat.ltb n 28 then Err UnexpectedEof
   else Ok (fst (scan [] (concat pre ++ chunks_before bk (n - 28))), FinErr UnexpectedEof).
 Print Assumptions C06_truncation_multipart.
+
+(* the chain on the left is what the `ptrunc` correspondence cases hand to the real readers *)
+Theorem C06_cut_parts_is_the_cut_chain :
+  forall n0 pre p later n,
+  ArchiveRun.cut_parts (chain_nl n0 pre ++ p :: later) (length pre) n = chain_nl n0 pre ++ [firstn n p].
+Proof. exact cut_parts_chain. Qed.
+Check C06_cut_parts_is_the_cut_chain :
+  forall n0 pre p later n,
+  ArchiveRun.cut_parts (chain_nl n0 pre ++ p :: later) (length pre) n = chain_nl n0 pre ++ [firstn n p].
+Print Assumptions C06_cut_parts_is_the_cut_chain.
 
 (* in terms of entries: the chunk stream of the well-formed entries `es` distributed in any way over the part
    files pre ++ bk :: post (as the split writer does; cuts between chunks), cut inside part k = length pre at byte n:
